@@ -90,11 +90,16 @@ func isNilPointer(v Value) bool {
 }
 
 // formatFloat renders a float the way the same number reads when an integer
-// type carries it: plain decimal notation up to 1e15 (fmt's %v switches to an
-// exponent at one million, so 1000000.0 printed as 1e+06 and compared unequal to
-// the integer 1000000). Very large and very small magnitudes keep the exponent.
+// type carries it: plain decimal notation from one million up to 1e21 (fmt's %v
+// switches to an exponent at one million, so 1000000.0 printed as 1e+06 and
+// compared unequal to the integer 1000000). An integral value is written out
+// exactly - the shortest numeral that identifies a float32 is a different
+// integer above 2^24. Smaller magnitudes keep fmt's form.
 func formatFloat(f float64, bits int) string {
-	if a := math.Abs(f); a >= 1e6 && a < 1e15 {
+	if a := math.Abs(f); a >= 1e6 && a < 1e21 {
+		if f == math.Trunc(f) {
+			bits = 64
+		}
 		return strconv.FormatFloat(f, 'f', -1, bits)
 	}
 	return strconv.FormatFloat(f, 'g', -1, bits)
